@@ -473,7 +473,9 @@ Qed.
 Lemma core_eval :
   product_core (B:=FldR) (map Some P) (map Some Bd) (map Some A) = (map Some b, Some u).
 Proof.
-  unfold product_core. rewrite map3_quot. destruct core_vmin as (-> & _).
+  unfold product_core. rewrite map3_quot. destruct core_vmin as (-> & _). cbv zeta.
+  replace (ltb (B:=FldR) (Some u) zero) with false
+    by (symmetry; cbn; apply Rltb_false; exact core_u_nonneg).
   f_equal. subst b. unfold prodB. fold u. apply map2_some. intros; reflexivity.
 Qed.
 
@@ -1290,4 +1292,44 @@ Proof.
   rewrite Eb, Eu, Ea in *. rewrite Eb', Eu', Ea' in *.
   split; [exact EU|]. split; [lia|]. split; [lia|].
   intros i j k Hi Hj Hk. rewrite C, C', CA, CA' by assumption. rewrite EU. split; ring.
+Qed.
+
+(* --------------------------------------- the uncertainty is never negative *)
+(* Whatever the operands (finite or not, well-formed or not): the smallest quotient is clamped at 0, so the
+   uncertainty computed by the four products is either undefined (NaN) or >= 0. *)
+Definition nonneg_u (o : @opinion FldR) : Prop :=
+  match snd (fst o) with Some u => 0 <= u | None => True end.
+
+Lemma product_core_u_nonneg (p bb a : list RV) :
+  match snd (product_core (B:=FldR) p bb a) with Some u => 0 <= u | None => True end.
+Proof.
+  unfold product_core; cbv zeta; cbn [snd].
+  destruct (vmin _) as [m|]; [|exact I].
+  change (@zero FldR) with (Some 0 : RV). rewrite ltb_some.
+  destruct (Rltb_spec m 0) as [H|H]; lra.
+Qed.
+
+Lemma products_u_nonneg eps (w0 w1 w2 : @opinion FldR) :
+  (forall o, product2 eps w0 w1 = Some o -> nonneg_u o) /\ nonneg_u (product2_lab w0 w1) /\
+  (forall o, product3 eps w0 w1 w2 = Some o -> nonneg_u o) /\ nonneg_u (product3_lab w0 w1 w2).
+Proof.
+  destruct w0 as [[b0 u0] a0], w1 as [[b1 u1] a1], w2 as [[b2 u2] a2].
+  unfold product2, product2_lab, product3, product3_lab, nonneg_u.
+  repeat split.
+  - intros o. pose proof (product_core_u_nonneg (outer (projection b0 u0 a0) (projection b1 u1 a1))
+                            (outer b0 b1) (outer a0 a1)) as H.
+    destruct (product_core _ _ _) as [b u]. destruct (_ && _); [|discriminate].
+    intros E; injection E as <-. exact H.
+  - pose proof (product_core_u_nonneg (outer (projection b0 u0 a0) (projection b1 u1 a1))
+                  (outer b0 b1) (outer a0 a1)) as H.
+    destruct (product_core _ _ _) as [b u]. exact H.
+  - intros o. pose proof (product_core_u_nonneg
+                            (outer3 (projection b0 u0 a0) (projection b1 u1 a1) (projection b2 u2 a2))
+                            (outer3 b0 b1 b2) (outer3 a0 a1 a2)) as H.
+    destruct (product_core _ _ _) as [b u]. destruct (_ && _); [|discriminate].
+    intros E; injection E as <-. exact H.
+  - pose proof (product_core_u_nonneg
+                  (outer3 (projection b0 u0 a0) (projection b1 u1 a1) (projection b2 u2 a2))
+                  (outer3 b0 b1 b2) (outer3 a0 a1 a2)) as H.
+    destruct (product_core _ _ _) as [b u]. exact H.
 Qed.
